@@ -567,6 +567,25 @@ fn should_recompile_on_event(_event: &Event) -> bool {
     true
 }
 
+/// Verification hook (cargo feature `verif-hooks`): public entry to the WASM hot-swap
+/// payload builder of the private `FileRunner`.
+#[cfg(all(feature = "verif-hooks", not(target_arch = "wasm32")))]
+pub fn verif_prepare_wasm_hot_swap(
+    bytes: Vec<u8>,
+    previous_skeleton: Option<StateTreeSkeleton<StateType>>,
+    dsp_state_skeleton: Option<StateTreeSkeleton<StateType>>,
+    ext_fns: &[ExtFunTypeInfo],
+    plugin_fns: Option<mimium_lang::runtime::wasm::WasmPluginFnMap>,
+) -> Result<ProgramPayload, String> {
+    FileRunner::verif_prepare_wasm_hot_swap(
+        bytes,
+        previous_skeleton,
+        dsp_state_skeleton,
+        ext_fns,
+        plugin_fns,
+    )
+}
+
 impl FileRunner {
     pub fn new(
         compiler: compiler::Context,
@@ -731,6 +750,31 @@ impl FileRunner {
             total_size: prewarmed_state_size,
             patches: vec![],
         }
+    }
+
+    /// Verification hook: build the WASM hot-swap payload exactly as
+    /// `prepare_hot_swap_wasm_payload` does, without needing a running `FileRunner`.
+    #[cfg(all(feature = "verif-hooks", not(target_arch = "wasm32")))]
+    fn verif_prepare_wasm_hot_swap(
+        bytes: Vec<u8>,
+        previous_skeleton: Option<StateTreeSkeleton<StateType>>,
+        dsp_state_skeleton: Option<StateTreeSkeleton<StateType>>,
+        ext_fns: &[ExtFunTypeInfo],
+        plugin_fns: Option<mimium_lang::runtime::wasm::WasmPluginFnMap>,
+    ) -> Result<ProgramPayload, String> {
+        let prepared_swap_data = Self::try_prewarm_wasm_global_state(&bytes, ext_fns, plugin_fns)?;
+        let state_patch_plan = Self::build_required_state_patch_plan(
+            previous_skeleton,
+            dsp_state_skeleton.as_ref(),
+            prepared_swap_data.prewarmed_global_state.len(),
+        );
+        Ok(ProgramPayload::WasmModule {
+            bytes,
+            prepared_engine: prepared_swap_data.prepared_engine,
+            dsp_state_skeleton,
+            state_patch_plan,
+            prewarmed_global_state: prepared_swap_data.prewarmed_global_state,
+        })
     }
 
     #[cfg(not(target_arch = "wasm32"))]
